@@ -5,7 +5,7 @@
    point of [g].  [mirror_of d g r] is the container that mirrors [g]; its accessors [entries], [on_mask2], [on_mask1],
    [attached_grid] are what the statements talk about. *)
 From Coq Require Import ZArith QArith List Bool Reals Lra.
-From PAV Require Import Base.Res Base.Check Base.NumOps Model.C17 Proofs.C17.
+From PAV Require Import Base.Res Base.Check Base.NumOps Model.C17 Proofs.C17 Model.C17x Proofs.C17x.
 Import ListNotations.
 Local Open Scope R_scope.
 
@@ -308,6 +308,62 @@ Proof.
   - intros m xs H. discriminate.
 Qed.
 
+(* ====================================================================== 7. class dispatch: SUBCLASS instances (Model/C17x.v)
+   An object handed to a decorator = the MRO of its class + the data it holds.  [well_classed mro c]: the accepted class c
+   (Grid2D / Grid2DIrregular / Grid1D / ndarray) lies somewhere along the MRO and no other accepted class does -- the class
+   itself, aa.Grid2DIrregularUniform, any class a user derives from an accepted class, a class derived from that ... *)
+Local Close Scope R_scope.
+(* the isinstance chain of AbstractMaker.result / project_grid selects the branch of the accepted class, however far down the MRO it lies *)
+Theorem C17_subclass_dispatches_as_base : forall (mro : list cname) (c : cname),
+  c <> NOther -> well_classed mro c -> dispatch mro = branch_of_class c.
+Proof. exact dispatch_well_classed. Qed.
+(* deriving a further class changes neither the branch nor the classification *)
+Theorem C17_deriving_keeps_branch : forall (mro : list cname), dispatch (NOther :: mro) = dispatch mro.
+Proof. exact dispatch_derive. Qed.
+Theorem C17_deriving_keeps_class : forall (mro : list cname) (c : cname),
+  c <> NOther -> (well_classed (NOther :: mro) c <-> well_classed mro c).
+Proof. exact well_classed_derive. Qed.
+(* hence, for every user function and every decorator, a subclass instance gets exactly the base class' result: same
+   container kind, mask and entries (all the theorems of parts 1-6 apply to it) *)
+Theorem C17_subclass_maker_result_is_base : forall (O : NumOps) (d : maker) (f : @grid O -> res (@result O)) (mro : list cname) (g : @grid O),
+  well_classed mro (class_of g) -> maker_result_obj d f mro g = maker_result d f g.
+Proof. exact @maker_result_subclass. Qed.
+Theorem C17_subclass_project_grid_is_base : forall (O : NumOps) (o : @profile O) (rc : bool) (f : @grid O -> res (@result O))
+  (mro : list cname) (g : @grid O),
+  well_classed mro (class_of g) -> project_grid_obj o rc f mro g = project_grid o rc f g.
+Proof. exact @project_grid_subclass. Qed.
+(* a look-up keyed by type(grid) is NOT this behaviour: an instance of a class derived from Grid2DIrregular would fall through *)
+Theorem C17_exact_type_dispatch_refuted :
+  let mro := [NOther; NGrid2DIrregular; NOther] in
+  well_classed mro NGrid2DIrregular /\ dispatch mro = BIrregular /\ dispatch_exact mro = BRaw.
+Proof. exact exact_type_dispatch_refuted. Qed.
+(* the wrapped correspondence case: accepted by the specification side iff the inner case is and every object's class
+   derives from exactly the accepted class of its data *)
+Theorem C17_wrapped_case_spec : forall mros k,
+  spec_ok_x (KObj mros k) = true ->
+  spec_ok k = true /\ Forall (fun ms => well_classed (fst ms) (spec_class (snd ms))) (combine mros (grids_of k)).
+Proof. exact spec_ok_x_sound. Qed.
+Theorem C17_wrapped_case_agree : forall mros k, agree_x (KObj mros k) = true -> agree k = true.
+Proof. exact agree_x_sound. Qed.
+Local Open Scope Q_scope.
+(* non-vacuity: aa.Grid2DIrregularUniform / PavPavGrid2D / PavGrid1D / a view of an ndarray subclass; an accepted wrapped case *)
+Example C17_hyps_subclass_satisfiable :
+  well_classed [NOther; NGrid2DIrregular; NOther; NOther; NOther; NOther] NGrid2DIrregular
+  /\ well_classed [NOther; NOther; NGrid2D; NOther; NOther; NOther; NOther] NGrid2D
+  /\ well_classed [NOther; NGrid1D; NOther] (class_of (G1D (@Build_mask1 QOps [false] 1 0) [1]))
+  /\ well_classed [NOther; NNdarray; NOther] NNdarray
+  /\ dispatch [NOther; NOther; NGrid2D; NOther] = BUniform
+  /\ checkx (KObj [[NOther; NGrid2DIrregular; NOther]]
+        (KMake ToArray (SIrr [(1, 2); (5, 6)]) (@F1 QOps (@FV QOps (@SAff QOps 1 1 0))) [(1, 2); (5, 6)]
+               (Ok (OOne (@ArrayIrr QOps [3; 11]))))) = 0%nat
+  /\ checkx (KObj [[NOther; NGrid2DIrregular; NOther]]
+        (KMake ToArray (SIrr [(1, 2); (5, 6)]) (@F1 QOps (@FV QOps (@SAff QOps 1 1 0))) [(1, 2); (5, 6)]
+               (Ok (OOne (@RawOne QOps (@Vals QOps [3; 11])))))) = 2%nat.
+Proof.
+  repeat split; try (apply well_classedb_iff; vm_compute; reflexivity); vm_compute; reflexivity.
+Qed.
+Local Close Scope Q_scope.
+
 Print Assumptions C17_maker_mirrors_grid. Print Assumptions C17_maker_mirrors_lists. Print Assumptions C17_maker_propagates_errors.
 Print Assumptions C17_mirror_entries. Print Assumptions C17_mirror_one_entry_per_point. Print Assumptions C17_mirror_same_mask.
 Print Assumptions C17_mirror_vector_carries_grid. Print Assumptions C17_mirror_1d_mask. Print Assumptions C17_ndarray_passthrough.
@@ -327,3 +383,6 @@ Print Assumptions C17_radial_min_never_closer. Print Assumptions C17_stack_neste
 Print Assumptions C17_native_roundtrip. Print Assumptions C17_native_slim_is_kth_unmasked. Print Assumptions C17_native_grid1d_is_slim_grid.
 Print Assumptions C17_native_grid2d_is_slim_grid. Print Assumptions C17_native_grid2d_entry_k. Print Assumptions C17_native_grid2d_entry_k_pairs.
 Print Assumptions C17_history_calls_are_pure. Print Assumptions C17_history_accepts_pure_calls. Print Assumptions C17_history_verdict_is_per_call.
+Print Assumptions C17_subclass_dispatches_as_base. Print Assumptions C17_deriving_keeps_branch. Print Assumptions C17_deriving_keeps_class.
+Print Assumptions C17_subclass_maker_result_is_base. Print Assumptions C17_subclass_project_grid_is_base.
+Print Assumptions C17_exact_type_dispatch_refuted. Print Assumptions C17_wrapped_case_spec. Print Assumptions C17_wrapped_case_agree.
